@@ -174,7 +174,8 @@ class Gen:
             if k < 0.4:
                 parts.append(r.choice(["a", "=", " ", "foo(", ")", "+", "'q%sq'" % mark, '"i%si"' % mark, "1"]))
             elif k < 0.8 and n > 0:
-                parts.append(mark + (str(r.randrange(1, n + 1)) if self.b == "pg" else "") + (" " if self.no_marks else ""))
+                ph = mark + (str(r.randrange(1, n + 1)) if self.b == "pg" else "")
+                parts.append((" " + ph + " ") if self.no_marks else ph)
             elif k < 0.9 and not self.no_marks:
                 parts.append(mark + mark)
             else:
